@@ -70,9 +70,13 @@ class SourceSet:
         r = self.rel(short)
         if r not in self._ast:
             try:
-                self._ast[r] = ast.parse(self.text(short), filename=r)
+                t = ast.parse(self.text(short), filename=r)
             except SyntaxError as e:  # pragma: no cover
                 raise AnchorMissing(f"{r} does not parse: {e}") from e
+            if not os.environ.get("VERIF_NO_INLINE"):
+                from .normalise import inline_helpers
+                t = inline_helpers(t)
+            self._ast[r] = t
         return self._ast[r]
 
     def py_modules(self) -> list[str]:
